@@ -29,6 +29,7 @@ import (
 	ssi "github.com/nuts-foundation/go-did"
 	"github.com/nuts-foundation/go-did/did"
 	"github.com/nuts-foundation/nuts-node/core"
+	"github.com/nuts-foundation/nuts-node/core/verifhook"
 	nutsCrypto "github.com/nuts-foundation/nuts-node/crypto"
 	"github.com/nuts-foundation/nuts-node/storage"
 	"github.com/nuts-foundation/nuts-node/storage/orm"
@@ -449,18 +450,22 @@ func (r *SqlManager) transactionHelper(ctx context.Context, operation func(tx *g
 	}); err != nil {
 		return err
 	}
+	verifhook.Point("didsubject.tx1.done", changes)
 
 	// Call commit for all managers on the created docs
 	var errManager error
 	for method, manager := range r.MethodManagers {
 		if change, ok := changes[method]; ok {
+			verifhook.Point("didsubject.commit.before", method, change)
 			errManager = manager.Commit(ctx, change)
+			verifhook.Point("didsubject.commit.after", method, change, errManager)
 			if errManager != nil {
 				break
 			}
 		}
 	}
 
+	verifhook.Point("didsubject.tx2.before", changes, errManager)
 	// in case of a DB failure, rollback/cleanup will be performed by the rollback loop.
 	err := r.DB.Transaction(func(tx *gorm.DB) error {
 		if errManager != nil {
